@@ -65,6 +65,10 @@ func (o *Obl) query(extra ...string) string {
 		sb.WriteString(l)
 		sb.WriteByte('\n')
 	}
+	for _, x := range o.extra {
+		sb.WriteString(x)
+		sb.WriteByte('\n')
+	}
 	for _, x := range extra {
 		sb.WriteString(x)
 		sb.WriteByte('\n')
